@@ -15,7 +15,7 @@ items=[]
 for m in ms:
     if isinstance(m,dict) and 'id' in m:
         items.append((m['id'], m['property'], '/verif/selftest/mutants/%s.patch'%m['id'], m.get('expect','fail'), m.get('description', m.get('change',''))))
-for d in sorted(glob.glob('/verif/seeded/*/meta.json'))+sorted(glob.glob('/verif/seeded2/*/meta.json'))+sorted(glob.glob('/verif/seeded3/*/meta.json'))+sorted(glob.glob('/verif/seeded4/*/meta.json'))+sorted(glob.glob('/verif/seeded5/*/meta.json'))+sorted(glob.glob('/verif/seeded6/*/meta.json'))+sorted(glob.glob('/verif/seeded7/*/meta.json')):
+for d in sorted(glob.glob('/verif/seeded/*/meta.json'))+sorted(glob.glob('/verif/seeded2/*/meta.json'))+sorted(glob.glob('/verif/seeded3/*/meta.json'))+sorted(glob.glob('/verif/seeded4/*/meta.json'))+sorted(glob.glob('/verif/seeded5/*/meta.json'))+sorted(glob.glob('/verif/seeded6/*/meta.json'))+sorted(glob.glob('/verif/seeded7/*/meta.json'))+sorted(glob.glob('/verif/seeded8/*/meta.json')):
     meta=json.load(open(d)); sid=os.path.basename(os.path.dirname(d))
     if '/seeded2/' in d: sid='S2-'+sid
     if '/seeded3/' in d: sid='S3-'+sid
@@ -23,6 +23,7 @@ for d in sorted(glob.glob('/verif/seeded/*/meta.json'))+sorted(glob.glob('/verif
     if '/seeded5/' in d: sid='S5-'+sid
     if '/seeded6/' in d: sid='S6-'+sid
     if '/seeded7/' in d: sid='S7-'+sid
+    if '/seeded8/' in d: sid='S8-'+sid
     items.append((sid, meta['property'], os.path.dirname(d)+'/patch.diff', 'fail', meta.get('breaks','')))
 want=set(sys.argv[1:])
 res=[]
